@@ -70,6 +70,8 @@ struct RunCtl
     bool user_durable = false;  // scripted callback stores the text durably (file model)
     bool user_stateful = false; // the scripted callback counts its own invocations (state inside the functor)
     bool nested = false;        // the integrand runs a small nested integration on some calls
+    double fs_yield_p = 0;      // MPI: probability that a rank is descheduled before a file system call
+    bool params_from_chkpt = false;   // continued runs take the distribution parameters from the last result
     bool base_typed = false;    // built-in callback instantiated with the checkpoint's base class (no generators)
     bool log_text = true;
     bool log_calls = true;
@@ -103,7 +105,7 @@ struct RunOut
     std::string what;
     std::vector<Ctx> ranks;     // logs per rank (serial: one)
     std::vector<std::string> rank_texts;   // serialised checkpoint returned on every rank
-    u64 steps = 0, collectives = 0, interleave = 0, reorders = 0, stalls = 0;
+    u64 steps = 0, collectives = 0, interleave = 0, reorders = 0, stalls = 0, fs_yields = 0;
     std::string cout_text;
     int cout_writers = 0;
     u64 cout_failed = 0;
@@ -156,6 +158,9 @@ public:
     virtual std::unique_ptr<IWorld> clone() const = 0;
     // checkpoint assembled through the public constructors and add() with corner case field values
     virtual void assemble(Plan const& p, u64 seed) = 0;
+    // the user changes alpha / beta / minimum weight between two runs: a new checkpoint with the
+    // parameters of q takes over the results one by one (public add) and the current generator
+    virtual bool transplant(Plan const& q) = 0;
 
     // public serial *_iteration on the state recorded in result k and the generator stored before
     // iteration k, with `calls` calls (C04 oracle)
